@@ -153,6 +153,25 @@ func c10Run(t *testing.T, c *choice.Stream, r *Result, opt RunOpt, forced *c10Fo
 		if c.Bool("backpressure", 1, 5) {
 			conn.Window = c.Pick("window", 16, 64, 512)
 		}
+		// a server that stops reading altogether (stuck process, black hole): once
+		// the window is full the sender stays blocked inside Write, and only the
+		// cancellation path can end the call
+		stuckAfter := -1
+		if conn.Window > 0 && forced == nil && c.Bool("stuck", 1, 2) {
+			stuckAfter = c.Draw("stuck.after", 1200)
+		}
+		var stuckSince time.Duration = -1
+		stuckNow := func() bool {
+			if stuckAfter < 0 || conn.StopReadAt < 0 || conn.OutLen() <= conn.StopReadAt {
+				return false
+			}
+			if stuckSince < 0 {
+				stuckSince = e.Sim.Now()
+			}
+			// the writer is blocked for good, or (everything fitted into the window)
+			// the client has been waiting for an answer that cannot come
+			return conn.OutLen() > conn.StopReadAt+conn.Window || e.Sim.Now() >= stuckSince+2*cf.EffReadTimeout()
+		}
 
 		useDeadline := c.Bool("deadline", 1, 4)
 		gate := c.Weighted("gate", 2, 3, 3, 3, 2) // handshake, bytes, script, step, callback
@@ -252,6 +271,11 @@ func c10Run(t *testing.T, c *choice.Stream, r *Result, opt RunOpt, forced *c10Fo
 				}, R: fire})
 			}
 		}
+		if stuckAfter >= 0 && !useDeadline {
+			// whatever the gate: once the writer is blocked for good nothing else
+			// would ever move, so the cancellation comes then at the latest
+			e.Sim.AddEnv(&sched.EnvFunc{N: "cancel-stuck", E: func() bool { return !fired && stuckNow() }, R: fire})
+		}
 		r.Cell = fmt.Sprintf("%s/%s/rt%v", sc.kind, gateName, cf.EffReadTimeout())
 		r.Sample = map[string]any{"kind": sc.kind, "gate": gateName, "k_bytes": kBytes, "script_pos": pScript, "step": sStep, "silence": silence, "deadline": dl.String(),
 			"client_rev": cf.ClientRev, "server_rev": cf.ServerRev, "compression": cf.Comp.String(), "read_timeout": cf.EffReadTimeout().String(), "window": conn.Window, "script": scriptLabels(sc.script)}
@@ -259,6 +283,10 @@ func c10Run(t *testing.T, c *choice.Stream, r *Result, opt RunOpt, forced *c10Fo
 
 		var mainDone bool
 		e.OnHang = func(info string) {
+			if !fired && !useDeadline {
+				r.Harness("nothing can move although the context was never cancelled (gate %s)\n%s", gateName, info)
+				return
+			}
 			r.Violate("no-return", "no-return:"+inCall, "%s never returned after the context was done (gate %s)\n%s", inCall, gateName, info)
 		}
 		e.After = func(out sched.Outcome) {
@@ -321,6 +349,10 @@ func c10Run(t *testing.T, c *choice.Stream, r *Result, opt RunOpt, forced *c10Fo
 				return
 			}
 			inCall = "Do"
+			if stuckAfter >= 0 {
+				conn.StopReadAt = conn.OutLen() + stuckAfter
+				r.Fire("server_stops_reading")
+			}
 			e.Sim.StallProb = stallProb
 			derr := cl.Do(ctx, sc.query)
 			info.clientBytes = conn.OutLen()
